@@ -61,7 +61,7 @@ def ref_job(text):
     if 'error' in out:
         raise RuntimeError(out['error'])
     rec = out['history'][-1]
-    return {'outcome': rec['outcome'], 'report': rec.get('report'), 'error': rec.get('error')}
+    return {'outcome': rec['outcome'], 'report': rec.get('report'), 'error': rec.get('error'), 'result_sha': rec.get('result_sha')}
 
 
 def history_job(spec, hashseed):
@@ -145,6 +145,10 @@ def make_requests(ctx):
         v1b = t + f'\nGradient 1, {60 + 3 * i}\n'             # same length as v1: only the content differs
         v2 = t + f'\nPlant Lifetime, {11 + i}\nUtilization Factor, 0.8{i}\n'
         reqs[f'q{i}'] = [t, v1, v1b, v2, tweak(t), tweak(t)]
+        if i % 2 == 0:
+            # a version that asks for the price models (revenue table columns) in another unit: the client's table parser
+            # meets different unit rows from one request to the next
+            reqs[f'q{i}'][4] = t + '\nUnits:Electricity Sale Price Model, USD/kWh\nUnits:Heat Sale Price Model, USD/MMBTU\n'
         if t is simple_text:
             def cost(n, t=t):
                 return '\n'.join(('All-in Vertical Drilling Costs, %d' % n) if ln.split(',')[0].strip() == 'All-in Vertical Drilling Costs' else ln
@@ -154,6 +158,10 @@ def make_requests(ctx):
             def div(n, t=t):
                 return '\n'.join(('US Census Division, %d' % n) if ln.split(',')[0].strip() == 'US Census Division' else ln for ln in t.split('\n'))
             reqs[f'q{i}'] = [t, div(5), div(2), div(7), v2, tweak(t)]
+    # requests that ask for the price models (columns of the revenue table) in other units, next to their plain twins
+    for j, t in enumerate(texts[:3]):
+        reqs[f'units{j}'] = [t + '\nUnits:Electricity Sale Price Model, USD/kWh\nUnits:Heat Sale Price Model, USD/MMBTU\n', t,
+                             t + '\nUnits:Electricity Sale Price Model, USD/MWh\n']
     # sparse requests: the same kind of input with optional lines removed, so that the run relies on the documented
     # defaults (cross-run state hiding in default objects only shows when a later request does NOT set the parameter)
     for i, t in enumerate(texts[:ctx.pick(3, 6)]):
@@ -189,6 +197,10 @@ def make_history(ctx, reqs, n_calls):
     keys = rng.sample(rids, min(len(rids), rng.randint(3, 5)))
     if rng.random() < 0.8 and not any(k.startswith(('bad', 'missing', 'quit')) for k in keys):
         keys[-1] = rng.choice(['bad0', 'bad1', 'missing', 'quit0', 'quit1', 'quit0'])
+    # most histories mix reports whose revenue-table unit rows differ (a request with price-model unit directives)
+    units = [k for k in rids if k.startswith('units')]
+    if units and rng.random() < 0.7 and not any(k.startswith('units') for k in keys):
+        keys[0] = rng.choice(units)
     version = {k: 0 for k in keys}
     calls = 0
     removed = set()
@@ -310,6 +322,13 @@ def check_history(mon, spec, out, refs, case):
         else:
             diff = None
         mon.check('result-is-function-of-input', same, mechanism=mech, first_difference=diff, **wit)
+        # ---- the parsed result (fields, tables, unit labels) equals the fresh run's, and stays what it was when it was returned
+        if same and rec.get('result_sha') and ref.get('result_sha'):
+            mon.check('parsed-result-is-function-of-input', rec['result_sha'] == ref['result_sha'],
+                      mechanism='C08/parsed-result-differs-from-fresh-run-although-the-report-is-the-same', **wit)
+        if rec.get('result_sha') and rec.get('result_sha_at_end'):
+            mon.check('returned-result-unchanged-by-later-requests', rec['result_sha'] == rec['result_sha_at_end'],
+                      mechanism='C08/result-object-returned-earlier-changed-by-a-later-request', **wit)
 
 
 def _first_line_diff(a, b):
@@ -373,7 +392,8 @@ def run(ctx):
                          'reference_outcomes': {'ok': sum(1 for r in refs.values() if r['outcome'] == 'ok'),
                                                 'error': sum(1 for r in refs.values() if r['outcome'] == 'error')},
                          'hash_seeds': HASHSEEDS})
-    ctx.required.update({'result-is-function-of-input': 300, 'cwd-and-argv-restored': 300, 'process-global-state-unchanged': 300})
+    ctx.required.update({'result-is-function-of-input': 300, 'cwd-and-argv-restored': 300, 'process-global-state-unchanged': 300,
+                         'parsed-result-is-function-of-input': 200, 'returned-result-unchanged-by-later-requests': 200})
     if not ctx.mon.viols and ctx.mon.notes.get('c08-failing-request-observed', 0) == 0:
         ctx.required['failing-request-observed'] = 1
     if not ctx.mon.viols and ctx.mon.notes.get('c08-request-ending-in-bare-sys-exit-observed', 0) == 0:
